@@ -112,7 +112,7 @@ def hasDemandViolation (cap past future cur : List Int) (x : Dem) (stopped : Boo
   if vNotEmpty x.sd && !vfits cap (vadd past x.sd) then some stopped
   else if vNotEmpty x.sp && !vfits cap (vadd future x.sp) then some false
   else
-    let ch := x.change
+    let ch := vadd x.change x.sd      -- the static delivery does not lower later loads
     if vNotEmpty ch && (!vfits cap (vadd future ch) || !vfits cap (vadd cur ch)) then some false
     else none
 
